@@ -108,6 +108,10 @@ pub trait Property: Sync {
     fn extra_evidence(&self) -> serde_json::Value {
         serde_json::Value::Null
     }
+    /// Upper bound on shrink re-executions for this scenario (real-time layers are slow).
+    fn shrink_budget(&self, _scenario: &Scenario, default: usize) -> usize {
+        default
+    }
 }
 
 pub fn shrink(prop: &dyn Property, scenario: Scenario, sig: &ViolationSig, budget: usize) -> (Scenario, Violation, usize) {
@@ -150,6 +154,14 @@ pub fn shrink(prop: &dyn Property, scenario: Scenario, sig: &ViolationSig, budge
 
 pub struct BatchOutcome {
     pub exit_code: i32,
+}
+
+/// Debugging aid: start the batch at another index (`VERIF_FIRST_INDEX`).
+fn first_index() -> usize {
+    std::env::var("VERIF_FIRST_INDEX")
+        .ok()
+        .and_then(|v| v.parse().ok())
+        .unwrap_or(0)
 }
 
 /// What one run contributes to a batch, in a form that can cross a process boundary.
@@ -224,7 +236,7 @@ pub fn run_shard(prop: &dyn Property, tier: &str, seed: u64, total: usize, k: us
     let mut samples_left = 3;
     let mut index = k;
     while index < total {
-        let result = prop.run(seed, index, tier);
+        let result = prop.run(seed, first_index() + index, tier);
         let record = to_record(prop, index, result, samples_left > 0);
         if record.sample.is_some() {
             samples_left -= 1;
@@ -339,7 +351,7 @@ pub fn run_batch(prop: &dyn Property, tier: &str, seed: u64) -> BatchOutcome {
                     if index >= total {
                         break;
                     }
-                    let report = prop.run(seed, index, tier);
+                    let report = prop.run(seed, first_index() + index, tier);
                     let record = to_record(prop, index, report, true);
                     results.lock().unwrap()[index] = Some(record);
                 });
@@ -421,7 +433,8 @@ pub fn run_batch(prop: &dyn Property, tier: &str, seed: u64) -> BatchOutcome {
         .and_then(|v| v.parse().ok())
         .unwrap_or(400);
     for (sig, (index, scenario, _violation, count)) in first_by_sig {
-        let (small, violation, checks) = shrink(prop, scenario, &sig, shrink_budget);
+        let budget = prop.shrink_budget(&scenario, shrink_budget);
+        let (small, violation, checks) = shrink(prop, scenario, &sig, budget);
         let kinds = prop.kinds(&small);
         let matched = known.iter().find(|k| {
             k.status == "open"
